@@ -361,7 +361,15 @@ impl Property for C09 {
             if src.chance(64) { let mut v = GOOD_LABELS.to_vec(); v.push("le"); v } else { GOOD_LABELS.to_vec() };
         let nconst = if has_labels { src.below(3) } else { 0 };
         let mut consts: Vec<(&'static str, &'static str)> = vec![];
-        for _ in 0..nconst {
+        if nconst == 2 && src.chance(30) {
+            // occasionally many constant labels (distinct synthetic names; clashes come from the variable side)
+            const MANYC: &[&str] = &["k0", "k1", "k2", "k3", "k4", "k5", "k6", "k7", "k8", "k9", "k10", "k11"];
+            for k in MANYC.iter().take(3 + src.below(10)) {
+                consts.push((*k, *src.pick(&["v", "", "w"])));
+            }
+            rep.class("many-constant-labels(3-12)");
+        }
+        for _ in 0..(if consts.is_empty() { nconst } else { 0 }) {
             let n = gen_part(src, &lab_pool_good, BAD_LABELS, p_bad);
             if !consts.iter().any(|(k, _)| *k == n) {
                 consts.push((n, *src.pick(&["v", "", "w"])));
